@@ -11,6 +11,8 @@ for d in sorted(glob.glob(os.path.join(os.path.dirname(os.path.abspath(__file__)
     for p in det:
         sigs += c["checks"][p]["signatures"][:1]
     first = "as is" if ("MISSED" not in m.get("history", "") ) else "after strengthening"
+    if m.get("undetected"):
+        det = ["NOT detected"]; first = "see history"
     if m.get("rejected"):
         det = ["rejected: outside the statement"]; first = "see history"
     rows.append(f"| {sid} | {m.get('property','')} | {m.get('summary','').replace('|','/')[:170]} | {m.get('needs_to_manifest','').replace('|','/')[:150]} | {'pass' if c.get('repo_tests_pass_with_patch') else 'FAIL'} | {', '.join(det) or 'none'} ({first}) | `{(sigs[0] if sigs else '')[:90]}` |")
